@@ -10,7 +10,8 @@
 (* TLC's simulator draws uniformly among the successor states, so the many *)
 (* certificate commands (variants x fingerprints) would crowd out the few  *)
 (* listener operations: the CLASS of the next step is drawn first (`cls`), *)
-(* then an enabled operation of that class.                                *)
+(* then an enabled operation of that class (TLC!RandomElement, seeded by   *)
+(* -seed: one successor per step, the simulation is a plain random walk).  *)
 (***************************************************************************)
 EXTENDS CertListener, Json
 
@@ -22,7 +23,9 @@ gvars == <<vars, hist, done, cls>>
 NClasses == 16
 
 InClass(o, c) ==
-  CASE c \in 1..5      -> o.kind \in {"add", "replace", "remove"}
+  CASE c \in {1, 2}    -> o.kind = "add"
+    [] c \in {3, 4}    -> o.kind = "replace"
+    [] c = 5           -> o.kind = "remove"
     [] c = 6           -> o.kind \in {"replace_fail", "replace_badold"}
     [] c \in {7, 8, 9} -> o.kind = "patch" /\ o.k # "other"
     [] c = 10          -> o.kind = "patch"
@@ -37,14 +40,14 @@ EnabledOps(c) == {o \in AllOps : Can(o) /\ InClass(o, c)}
 \* a class without enabled operation falls back to every enabled operation
 Choice(c)  == IF EnabledOps(c) # {} THEN EnabledOps(c) ELSE {o \in AllOps : Can(o)}
 
-GenInit == Init /\ hist = <<>> /\ done = FALSE /\ cls \in 1..NClasses
+GenInit == Init /\ hist = <<>> /\ done = FALSE /\ cls = RandomElement(1..NClasses)
 GenNext ==
   \/ /\ Len(hist) < MaxSteps
-     /\ \E o \in Choice(cls) :
+     /\ \E o \in {RandomElement(Choice(cls))} :
           /\ Do(o)
           /\ hist' = Append(hist, [op |-> o, exp |-> Expect'])
      /\ done' = FALSE
-     /\ cls' \in 1..NClasses
+     /\ cls' = RandomElement(1..NClasses)
   \/ /\ Len(hist) = MaxSteps /\ ~done
      /\ done' = TRUE /\ UNCHANGED <<vars, hist, cls>>
 GenSpec == GenInit /\ [][GenNext]_gvars
